@@ -813,12 +813,31 @@ func (u *H2Upstream) onRequest(e *H2End, st *h2stream) {
 	r.Upstream = append(r.Upstream, up)
 	st.req, st.up = r, up
 	e.S.Logf("h2 upstream %s c%d got req#%d stream=%d attempt=%d body=%dB in %d DATA frames", u.Host, u.Conn.ID, r.Idx, st.id, up.Att, len(m.Body), st.dataSeen)
-	e.S.After(up.Act.Delay, fmt.Sprintf("up:reply:req#%d", r.Idx), func() {
+	e.S.After(up.Act.Delay, fmt.Sprintf("up:%s:req#%d", up.Act.Kind, r.Idx), func() {
 		if u.Closed || u.Err != nil {
 			return
 		}
+		switch up.Act.Kind {
+		case "never", "half", "unknown_id", "stale_id", "garbage_reply", "corrupt_reply":
+			return // no answer on this stream (the frame-level variants belong to the xprotocol actors)
+		case "reset":
+			e.S.Fault("up_rst_stream")
+			_ = e.fr.WriteRSTStream(st.id, http2.ErrCodeInternal)
+			e.flush()
+			return
+		case "close", "half_close":
+			e.S.Fault("up_conn_closed")
+			u.Conn.PeerClose()
+			return
+		}
 		rm := u.ReplyBuilder(u, r, up)
+		if up.Act.Err {
+			rm.Status = 503
+		}
 		u.SendMessage(st, fieldsOf(rm, ""), rm.Body)
 		up.Sent = append(up.Sent, rm.Body)
+		if up.Act.Kind == "reply_close" {
+			u.Conn.PeerClose()
+		}
 	})
 }
